@@ -16,6 +16,8 @@ PASS = [False, True, False, False, False]  # pass-through node <=> exactly one c
 
 def run(ctx, col, tier):
     repo = ctx.repo
+    from ..rules import negidx as _negidx
+    _negidx.run(ctx, col, ('swcgeom.analysis.features', 'swcgeom.analysis.lmeasure', 'swcgeom.analysis.sholl', 'swcgeom.analysis.feature_extractor', 'swcgeom.core.tree', 'swcgeom.core.node', 'swcgeom.core.path', 'swcgeom.core.branch', 'swcgeom.transforms.tree'))
     from ..rules import endpoints as _endpoints
     _endpoints.run(ctx, col, ('swcgeom.core.tree', 'swcgeom.core.path', 'swcgeom.core.branch', 'swcgeom.core.node', 'swcgeom.core.tree_utils', 'swcgeom.core.tree_utils_impl', 'swcgeom.core.swc_utils.base', 'swcgeom.core.swc_utils.subtree', 'swcgeom.core.swc_utils.normalizer', 'swcgeom.core.swc_utils.io'))
     col.rule("R-PURE", "the branch tree and the original branches it remembers are detached copies: ownership abstract interpretation of "
